@@ -352,7 +352,8 @@ package gnet
 // wake: OnTraffic for an open, registered connection; nothing for a stale one.
 //@ func (el *eventloop) wake(c *conn) (err error)
 //@   requires elwf(el) && c != nil && c.loop == el
-//@   requires c.opened && reg(el.connections, c.fd) != nil ==> CI(c)
+//@   requires (c.opened && reg(el.connections, c.fd) != nil ==> CI(c)) && (!c.opened ==> CZ(c))
+//@   ensures !c.opened ==> CZ(c)
 //@   modifies-all-except eventloop, engine, Options, netpoll.Poller, listener, asyncWriteHook, asyncWritevHook, map[int]*listener, ghost:kdata, ghost:kpos, ghost:nopen, ghost:nacb if c.opened && reg(el.connections, c.fd) != nil
 //@   ensures c.loop == el && c.fd == old(c.fd) && elwf(el)
 //@   ensures !old(c.opened && reg(el.connections, c.fd) != nil) ==> err == nil
@@ -775,3 +776,32 @@ package gnet
 //@          owner[fd] != nil && has(el.listeners, fd) && el.listeners[fd] != nil &&
 //@          ((typeis(el.listeners[fd].addr, "*net.TCPAddr") || typeis(el.listeners[fd].addr, "*net.UDPAddr")) ==> ref(el.listeners[fd].addr) != nil) &&
 //@          (forall l *eventloop :: l != nil ==> l.listeners == el.listeners)
+
+// ---------------------------------------------------------------------------------------------
+// The loop-side tasks of Conn.Wake, Conn.Close and Conn.CloseWithCallback (closures queued through Poller.Trigger; gvc binds
+// their captured variables c and callback as pre-existing cells). On a connection that is no longer open they do nothing
+// but report; otherwise they run wake / close exactly as a handler-initiated one; the completion callback runs exactly once.
+//@ func Wake$1(a any) (err error)
+//@   requires c != nil && c.loop != nil && elwf(c.loop) && !c.isDatagram
+//@   requires (c.opened ==> CI(c)) && (!c.opened ==> CZ(c))
+//@   modifies-all-except eventloop, engine, Options, netpoll.Poller, listener, asyncWriteHook, asyncWritevHook, map[int]*listener, ghost:kdata, ghost:kpos, ghost:nopen, ghost:nacb
+//@   ensures c.loop == old(c.loop) && c.fd == old(c.fd) && elwf(c.loop)
+//@   ensures (c.opened ==> CI(c)) && (!c.opened ==> CZ(c))
+//@   ensures nacb == old(nacb) + (callback != nil ? 1 : 0)
+//
+//@ func CloseWithCallback$1(a any) (err error)
+//@   requires c != nil && c.loop != nil && elwf(c.loop) && !c.isDatagram
+//@   requires (c.opened ==> CI(c)) && (!c.opened ==> CZ(c))
+//@   modifies-all-except eventloop, engine, Options, netpoll.Poller, listener, asyncWriteHook, asyncWritevHook, map[int]*listener, ghost:kdata, ghost:kpos, ghost:nopen, ghost:nacb
+//@   ensures c.loop == old(c.loop) && c.fd == old(c.fd) && elwf(c.loop)
+//@   ensures (c.opened ==> CI(c)) && (!c.opened ==> CZ(c))
+//@   ensures nacb == old(nacb) + (callback != nil ? 1 : 0)
+//@   ensures old(c.opened) ==> nclose[c] == 1
+//
+//@ func Close$1(a any) (err error)
+//@   requires c != nil && c.loop != nil && elwf(c.loop) && !c.isDatagram
+//@   requires (c.opened ==> CI(c)) && (!c.opened ==> CZ(c))
+//@   modifies-all-except eventloop, engine, Options, netpoll.Poller, listener, asyncWriteHook, asyncWritevHook, map[int]*listener, ghost:kdata, ghost:kpos, ghost:nopen, ghost:nacb
+//@   ensures c.loop == old(c.loop) && c.fd == old(c.fd) && elwf(c.loop)
+//@   ensures !c.opened && CZ(c) && nacb == old(nacb)
+//@   ensures old(c.opened) ==> nclose[c] == 1 && owner[c.fd] == nil && !cerr[c]
